@@ -21,7 +21,9 @@ from . import valcodec
 from .net import Net, BUS
 
 STREAMS = ['net-exhaustive', 'net-random', 'net-spy', 'net-corpus']
-THEOREMS = ['link_refinement', 'call_stage_invariant', 'C11_end_to_end', 'C11_returns_what_it_returned']
+THEOREMS = ['link_refinement', 'call_stage_invariant', 'call_in_exactly_one_stage', 'queues_hold_only_issued_calls',
+            'C11_end_to_end', 'quiescence_reachable', 'C11_completion_always_reachable',
+            'C11_returns_what_it_returned', 'prefix_model_violates']
 TRUSTED_BASE = [
     'harness/net.py: in-memory byte pipes + per-peer DBusMessage._nextSerial swapping (one counter per process)',
     'message-level schedule induced from rawDBusMessageReceived/sendMessage instrumentation of each peer',
@@ -45,7 +47,7 @@ SIG_POOL = ['', 's', 'i', 'ss', 'as', 'a{sv}', '(is)', 'v', 'x', 't', 'ay', 'b',
 SMALL_SIGS = ['', 's', 'i', 'ss', 'as', '(is)', 'v']
 
 BEHAVIOURS = ['value', 'value', 'value', 'defer-value', 'defer-raise', 'raise-plain', 'raise-named',
-              'raise-badname', 'bad-return']
+              'raise-badname', 'bad-return', 'fired-deferred']
 
 INTROSPECTABLE = 'org.freedesktop.DBus.Introspectable'
 
@@ -92,6 +94,8 @@ def gen_type(rng, t, depth=0):
         return rng.choice([0.0, -0.0, 1.5, -2.25, 1e300, 5e-324, float('inf'), float('-inf'), float('nan'),
                            rng.uniform(-1e6, 1e6)])
     if c == 's':
+        if rng.random() < 0.01:
+            return 'long-' + 'xyz' * rng.choice([200, 700])      # spans many small reads
         return rng.choice(_STRS)
     if c == 'o':
         v = rng.choice(['/', '/a', '/a/b', '/org/x_1/Y'])
@@ -255,7 +259,7 @@ def gen_scenario(rng, small=False):
         spec = exports[ex]
         iface = rng.choice(spec['ifaces'])
         meth = rng.choice(iface['methods'])
-        how = rng.choice(['explicit', 'introspect'])
+        how = rng.choice(['explicit', 'introspect'] if small else ['explicit', 'explicit', 'introspect', 'introspect', 'byname'])
         wrong = None
         r = rng.random()
         if not small and how == 'explicit' and r < 0.12:
@@ -287,7 +291,20 @@ def gen_scenario(rng, small=False):
                           for _ in range(3)])
         else:
             plans.append([rng.choice(BEHAVIOURS) for _ in range(4)])
-    return {'n': n, 'exports': exports, 'calls': calls, 'plans': plans, 'vseed': rng.randrange(10**9)}
+    scn = {'n': n, 'exports': exports, 'calls': calls, 'plans': plans, 'vseed': rng.randrange(10**9)}
+    if not small and len(exports) >= 2 and rng.random() < 0.6:
+        # methods of export 0 may RELAY: call a method of export 1 through a proxy from inside the invocation and
+        # answer only when that nested call has completed (re-entrancy: a call is sent inside the dispatch, the
+        # outer reply is sent inside the completion of the nested call)
+        ti = rng.choice(exports[1]['ifaces'])
+        tm = rng.choice(ti['methods'])
+        if not _dup_member(exports[1], tm[0]):
+            scn['relay'] = {'export': 1, 'iface': ti['name'], 'member': tm[0],
+                            'args': [valcodec.to_line(a) for a in gen_body(rng, tm[1])]}
+            plans[0][rng.randrange(len(plans[0]))] = 'relay'
+            if rng.random() < 0.5:
+                plans[0][rng.randrange(len(plans[0]))] = 'relay'
+    return scn
 
 
 def _dup_member(spec, member):
@@ -467,7 +484,10 @@ class Run:
             sig_out = decl[2]
             rec = {'export': ei, 'client': j, 'iface': iface, 'member': member, 'args': list(args),
                    'caller': caller, 'kind': kind, 'sigOut': sig_out, 'nret': len(complete_types(sig_out))}
-            if kind in ('value', 'defer-value', 'bad-return'):
+            if kind == 'relay' and 'relay' not in self.scn:
+                kind = 'value'
+            rec['kind'] = kind
+            if kind in ('value', 'defer-value', 'bad-return', 'fired-deferred', 'relay'):
                 body = gen_body(vr, sig_out)
                 if kind == 'bad-return' and sig_out and sig_out[0] in 'sixoy':
                     ret = [1, 2]          # a list where a basic value is declared: does not encode
@@ -484,6 +504,16 @@ class Run:
                 rec['result'] = ('raised', cls, vr.choice(EXC_TEXTS))
             self.net.log.append(('inv', 'cli:%d' % j, rec))
             self.invoked += 1
+            if kind == 'relay':
+                t = self.tok_count[j]
+                self.tok_count[j] += 1
+                d = defer.Deferred()
+                rec['tok'] = t
+                rec['relay_value'] = rec.pop('result')
+                self.deferreds[(j, t)] = (d, rec)
+                self.net.log.append(('exec', 'cli:%d' % j, t))
+                self.start_nested(j, t, rec, d)
+                return d
             if kind.startswith('defer'):
                 t = self.tok_count[j]
                 self.tok_count[j] += 1
@@ -493,6 +523,8 @@ class Run:
                 self.net.log.append(('exec', 'cli:%d' % j, t))
                 self.actions.append(('resolve', j, t))
                 return d
+            if kind == 'fired-deferred':
+                return defer.succeed(rec['result'][1])      # a Deferred that has already fired: like a plain return
             if rec['result'][0] == 'value':
                 return rec['result'][1]
             raise EXC_CLASSES[rec['result'][1]](rec['result'][2])
@@ -548,15 +580,17 @@ class Run:
             body = [r]
         self.add_unenc(rec['sigOut'], body)
 
-    def add_unenc(self, sig, body):
+    def add_unenc(self, sig, body, lines=None, expect=None):
         m = _marshal()
+        lines = self.lines if lines is None else lines
+        expect = self.expect if expect is None else expect
         try:
             m.marshal(sig, body)
         except Exception as e:
-            self.lines.append('unenc %s %d %s ~ %s %s' % (hs(sig), len(body), ' '.join(tok(v) for v in body),
-                                                          hs(type(e).__name__), hs(str(e))))
-            self.lines[-1] = ' '.join(self.lines[-1].split())
-            self.expect.append('ok')
+            ln = 'unenc %s %d %s ~ %s %s' % (hs(sig), len(body), ' '.join(tok(v) for v in body),
+                                             hs(type(e).__name__), hs(str(e)))
+            lines.append(' '.join(ln.split()))
+            expect.append('ok')
             return True
         return False
 
@@ -653,10 +687,28 @@ class Run:
                             beh = self.result_text(rec)
                         rec['from'] = (m['sender'], m['serial'])
                     self.lines.append('toClient %d %s' % (i, beh))
+                    body = g[1:]
+                    cut = [n for n, x in enumerate(body) if x[0] == 'syncresolve']
+                    before, after = (body[:cut[0]], body[cut[0]:]) if cut else (body, [])
                     if m['t'] == 'unparsable':
                         self.expect.append('unparsable')
                     else:
-                        self.expect.append(' '.join(['recv ' + self.show_msg(m)] + self.effects(g[1:], i)))
+                        self.expect.append(' '.join(['recv ' + self.show_msg(m)] + self.effects(before, i)))
+                    for x in before:
+                        if x[0] == 'nested':
+                            # a call made by the exported method during this delivery
+                            self.steps.append('N%d' % i)
+                            self.lines += x[2]
+                            self.expect += x[3]
+                    if after:
+                        # the outer Deferred of a relay fired inside this delivery
+                        _, _, t, rec = after[0]
+                        self.steps.append('R%d' % i)
+                        if rec['result'][0] == 'value':
+                            self.unenc_lines(rec)
+                        self.lines.append('resolve %d %d %s' % (i, t, self.result_text(rec)))
+                        eff = self.effects(after[1:], i)
+                        self.expect.append(' '.join(eff) if eff else 'idle')
         return entries
 
     # -------------------------------------------------------------- application actions
@@ -665,8 +717,15 @@ class Run:
         spec = self.scn['exports'][call['export']]
         c, j = call['caller'], spec['client']
         net = self.net
+        from txdbus.interface import DBusInterface
+        names = None
+        if call['how'] == 'byname':
+            # interfaces given by NAME: introspection unless every name is in DBusInterface.knownInterfaces
+            # (filled by an earlier introspection in this scenario)
+            names = [call['iface']]
+            call['cached'] = all(nm in DBusInterface.knownInterfaces for nm in names)
         with net.as_peer(c):
-            d = self.conns[c].getRemoteObject(self.name_of[j], spec['path'])
+            d = self.conns[c].getRemoteObject(self.name_of[j], spec['path'], names)
 
         def ok(ro):
             call['proxy'] = ro
@@ -680,6 +739,12 @@ class Run:
         d.addCallbacks(ok, bad)
         sends = [e for e in net.log if e[0] == 'send']
         del net.log[:]
+        if call.get('cached'):
+            # no message: the proxy was built from the cached definitions
+            if sends or 'proxy' not in call:
+                self.lines.append('quiescent')
+                self.expect.append('cached proxy: %d messages sent, proxy=%s' % (len(sends), 'proxy' in call))
+            return
         self.lines.append('call %d raw %d %s %s %s %s 0' % (c, j, hs(spec['path']), hs(INTROSPECTABLE),
                                                            hs('Introspect'), hs('')))
         if len(sends) == 1:
@@ -708,12 +773,15 @@ class Run:
             out.append(DBusInterface(i['name'], *ms, noRegister=True))
         return out
 
-    def do_call(self, k):
-        from txdbus import error
+    def do_call(self, k, nested=None):
+        """Issue call number k through its proxy.  `nested` = (j, tok, rec, outer Deferred) when the call is made
+        by an exported method from inside its invocation (relay): the model lines are then handed to `absorb`
+        through a marker in the log, because they come after the `toClient` line of the delivery in progress."""
         call = self.calls[k]
         spec = self.scn['exports'][call['export']]
         c, j = call['caller'], spec['client']
         net = self.net
+        lines, expect = [], []
         if 'proxy' not in call:
             path = spec['path'] + ('/nope' if call['wrong'] == 'path' else '')
             with net.as_peer(c):
@@ -739,11 +807,12 @@ class Run:
                 call['chosen_iface'] = i.name
                 break
         if decl is not None and len(args) == decl.nargs and decl.sigIn:
-            self.add_unenc(decl.sigIn, args)
-        self.lines.append(' '.join(('call %d proxy %d %s %s %s %s %d %s' % (
+            self.add_unenc(decl.sigIn, args, lines, expect)
+        lines.append(' '.join(('call %d proxy %d %s %s %s %s %d %s' % (
             c, j, hs(ro.objectPath), self.ifaces_text(ro.interfaces), ho(call['kw']), hs(member), len(args),
             ' '.join(toks_under(decl.sigIn if decl is not None else '', args)))).split()))
         result = None
+        mark = len(net.log)
         try:
             with net.as_peer(c):
                 d = ro.callRemote(member, *args, **kwargs)
@@ -752,22 +821,48 @@ class Run:
         except TypeError:
             result = 'typeError'
         if result is None:
-            sends = [e for e in net.log if e[0] == 'send']
+            sends = [e for e in net.log[mark:] if e[0] == 'send']
             if len(sends) == 1:
                 call['serial'] = sends[0][2]['serial']
                 call['sent'] = True
                 result = 'sent %d' % call['serial']
             else:
                 result = 'encodeError'
-            d.addCallbacks(lambda r: net.log.append(('done', 'cli:%d' % c, k, 'ok', r)),
-                           lambda f: net.log.append(('done', 'cli:%d' % c, k, 'fail', f)))
-            if not call.get('sent'):
-                # failed locally: the errback already ran
-                call['local_failure'] = [e for e in net.log if e[0] == 'done']
+            if nested is None:
+                d.addCallbacks(lambda r: net.log.append(('done', 'cli:%d' % c, k, 'ok', r)),
+                               lambda f: net.log.append(('done', 'cli:%d' % c, k, 'fail', f)))
+            else:
+                nj, ntok, nrec, outer = nested
+
+                def finished(kind, val):
+                    net.log.append(('done', 'cli:%d' % c, k, kind, val))
+                    # the outer method answers now, inside the completion of the nested call
+                    nrec['result'] = nrec['relay_value'] if kind == 'ok' else ('raised', 'BoomError', 'relay failed')
+                    net.log.append(('syncresolve', 'cli:%d' % nj, ntok, nrec))
+                    nrec['resolved'] = True
+                    if nrec['result'][0] == 'value':
+                        outer.callback(nrec['result'][1])
+                    else:
+                        outer.errback(EXC_CLASSES['BoomError']('relay failed'))
+                d.addCallbacks(lambda r: finished('ok', r), lambda f: finished('fail', f))
         call['issue'] = result
         call['decl'] = decl
-        del net.log[:]
-        self.expect.append(result)
+        expect.append(result)
+        if nested is None:
+            del net.log[:]
+            self.lines += lines
+            self.expect += expect
+        else:
+            del net.log[mark:]
+            net.log.append(('nested', 'cli:%d' % c, lines, expect))
+
+    def start_nested(self, j, t, rec, outer):
+        rl = self.scn['relay']
+        k2 = len(self.calls)
+        self.calls.append({'caller': j, 'export': rl['export'], 'iface': rl['iface'], 'member': rl['member'],
+                           'how': 'explicit', 'wrong': None, 'kw': None, 'bad_args': False, 'order': 'decl',
+                           'args': rl['args'], 'nested': True})
+        self.do_call(k2, nested=(j, t, rec, outer))
 
     def do_resolve(self, j, t):
         d, rec = self.deferreds[(j, t)]
@@ -805,7 +900,7 @@ class Run:
         self.intro_serials = {}
         self.actions = []
         for k, c in enumerate(self.calls):
-            self.actions.append(('getproxy', k) if c['how'] == 'introspect' else ('call', k))
+            self.actions.append(('getproxy', k) if c['how'] in ('introspect', 'byname') else ('call', k))
         guard = 0
         while True:
             opts = self.options()
@@ -882,7 +977,7 @@ class Run:
                           observed=[list(c) for c in net.crashes], expected='no exception')
             return
         for k, call in enumerate(self.calls):
-            if call['how'] == 'introspect' and 'proxy' not in call:
+            if call['how'] in ('introspect', 'byname') and 'proxy' not in call:
                 self.flag('introspection-failed', 'getRemoteObject(busName, path) did not produce a proxy',
                           observed=repr(call.get('proxy_error')), expected='a proxy')
                 continue
@@ -1060,6 +1155,7 @@ def run(ctx):
         rs, complete = exhaustive_runs(scn, cap)
         all_complete = all_complete and complete
         ctx.stat('exhaustive-schedules=%d' % min(1000, 50 * (len(rs) // 50)))
+        ctx.stat('exhaustive-enumeration=' + ('complete' if complete else 'truncated'))
         report(ctx, 'net-exhaustive', rs)
         if ctx.elapsed() > (20 if ctx.tier == 'quick' else 300):
             ctx.note('exhaustive stream stopped early (time)')
